@@ -253,7 +253,7 @@ pub fn gen_pair(tapes: &[Vec<u32>], focus: Focus) -> PairCase {
             .collect();
         reqs.push(Req {
             id: i as u32 + 1,
-            method: if has_body { "POST".into() } else { t.pick(&["GET", "GET", "DELETE", "HEAD"]).to_string() },
+            method: if has_body { "POST".into() } else { t.pick(&["GET", "GET", "DELETE", "OPTIONS"]).to_string() },
             delay: if t.chance(1, 2) { t.below(10) } else { 0 },
             req,
             req_reader: gen_reader(&mut t, focus),
@@ -266,6 +266,25 @@ pub fn gen_pair(tapes: &[Vec<u32>], focus: Focus) -> PairCase {
             drop_response_future: focus != Focus::Coop && t.chance(1, 10),
             clone_handle: t.chance(1, 3),
         });
+    }
+    // bound the number of DATA frames: with a window of w bytes a body of n bytes needs ≥ n/w frames
+    // (and as many WINDOW_UPDATEs); keep every chunk below ~400 window-fuls
+    let minw = |c: &Cfg| c.initial_window.unwrap_or(65535).min(c.conn_window.unwrap_or(65535)).max(1) as usize;
+    let (wc, ws) = (minw(&ccfg), minw(&scfg));
+    let has_window_ops = true;
+    let _ = has_window_ops;
+    for r in reqs.iter_mut() {
+        for ch in r.req.chunks.iter_mut() {
+            ch.len = ch.len.min(ws.saturating_mul(400));
+        }
+        for ch in r.resp.chunks.iter_mut() {
+            ch.len = ch.len.min(wc.saturating_mul(400));
+        }
+        for p in r.pushes.iter_mut() {
+            for ch in p.resp.chunks.iter_mut() {
+                ch.len = ch.len.min(wc.saturating_mul(400));
+            }
+        }
     }
     // a client that opens streams before it has seen the server's limit gets the surplus
     // refused (legitimate); keep cooperative runs below the limit from the start
@@ -282,7 +301,7 @@ pub fn gen_pair(tapes: &[Vec<u32>], focus: Focus) -> PairCase {
         for _ in 0..n {
             let side = if t.bool() { Side::Client } else { Side::Server };
             let cmd = match t.weighted(&[4, 3, 2]) {
-                0 => ConnCmd::SetInitialWindow(*t.pick(WINDOWS)),
+                0 => ConnCmd::SetInitialWindow(*t.pick(&WINDOWS[3..])),
                 1 => ConnCmd::SetTargetWindow(*t.pick(&[65535u32, 70000, 1 << 20, 100_000])),
                 _ => ConnCmd::Ping,
             };
@@ -1079,26 +1098,29 @@ pub fn run_pair(case: &PairCase) -> PairRun {
     if end == RunEnd::Quiescent && exec.any_panic().is_none() && !exec.unfinished().is_empty() {
         // classify the stall: does it complete when every task is re-polled (spurious polls)?
         let snapshot_unfinished: Vec<(String, Group)> = exec.unfinished().iter().map(|t| (t.name.clone(), t.group)).collect();
-        let mut rounds = 0;
-        loop {
-            let progressed = exec.repoll_all();
-            let e2 = exec.run(budget);
-            if e2 != RunEnd::Quiescent {
-                end = e2;
-                break;
-            }
-            rounds += 1;
-            if exec.unfinished().is_empty() {
-                completed_when_repolled = Some(true);
-                break;
-            }
-            if !progressed || rounds > 200 {
-                completed_when_repolled = Some(false);
-                break;
+        let app_pending = |exec: &Exec| exec.unfinished().iter().filter(|t| matches!(t.group, Group::ClientApp | Group::ServerApp)).count();
+        if app_pending(&exec) > 0 {
+            let mut rounds = 0;
+            loop {
+                let progressed = exec.repoll_all();
+                let e2 = exec.run(budget);
+                if e2 != RunEnd::Quiescent {
+                    end = e2;
+                    break;
+                }
+                rounds += 1;
+                if app_pending(&exec) == 0 {
+                    completed_when_repolled = Some(true);
+                    break;
+                }
+                if !progressed || rounds > 200 {
+                    completed_when_repolled = Some(false);
+                    break;
+                }
             }
         }
         let stats = collect_stats(&ctx);
-        let run = PairRun {
+        let mut run = PairRun {
             events: log.events.borrow().clone(),
             end,
             unfinished: snapshot_unfinished,
@@ -1108,11 +1130,11 @@ pub fn run_pair(case: &PairCase) -> PairRun {
             stats,
             wire,
         };
-        exec.teardown();
+        teardown_all(exec, ctx, &mut run);
         return run;
     }
     let stats = collect_stats(&ctx);
-    let run = PairRun {
+    let mut run = PairRun {
         events: log.events.borrow().clone(),
         end,
         unfinished: exec.unfinished().iter().map(|t| (t.name.clone(), t.group)).collect(),
@@ -1122,8 +1144,29 @@ pub fn run_pair(case: &PairCase) -> PairRun {
         stats,
         wire,
     };
-    exec.teardown();
+    teardown_all(exec, ctx, &mut run);
     run
+}
+
+/// Drop every task and handle; a panic in a destructor of the code under test is
+/// recorded like any other panic.
+fn teardown_all(mut exec: Exec, ctx: Ctx, run: &mut PairRun) {
+    exec.teardown();
+    if run.panic.is_some() || exec.any_panic().is_some() {
+        if run.panic.is_none() {
+            run.panic = exec.any_panic();
+        }
+        std::mem::forget(ctx);
+        std::mem::forget(exec);
+        return;
+    }
+    let r = std::panic::catch_unwind(std::panic::AssertUnwindSafe(move || {
+        drop(ctx);
+        drop(exec);
+    }));
+    if r.is_err() && run.panic.is_none() {
+        run.panic = Some(("teardown (destructor)".into(), crate::util::take_panic().unwrap_or_default()));
+    }
 }
 
 fn collect_stats(ctx: &Ctx) -> Vec<(Side, Option<h2::verif::VerifStats>, bool)> {
